@@ -78,7 +78,7 @@ def ops_for(kind):
         ops += [('q', 'xd', 0)]
     if kind == 'flat':
         ops += [('q', 'xx', 0), ('q', 'xz', 0)]
-    ops += [('q', 'x', '0!'), ('qi', 'ix', '0!')]
+    ops += [('q', 'x', '0!'), ('qi', 'ix', '0!'), ('q2', 'x', 'y')]     # q2: two events in one queue() call
     return ops
 
 
@@ -160,6 +160,10 @@ def apply_op(it, ref, op, listener_log):
         ev = Event(op[1], s=s, delay=0) if op[2] == '0!' else (
             Event(op[1], s=s, delay=op[2]) if op[2] else Event(op[1], s=s))
         it.queue(ev)
+    elif k == 'q2':
+        s1 = ref.queue(op[1], 0)
+        s2 = ref.queue(op[2], 0)
+        it.queue(Event(op[1], s=s1), Event(op[2], s=s2))
     elif k == 'qi':
         s = ref.queue(op[1], op[2], internal=True)
         ev = InternalEvent(op[1], s=s, delay=0) if op[2] == '0!' else (
@@ -236,6 +240,8 @@ def build(kind, sc, hist):
 def enabled(ref, op):
     if op[0] == 'q':
         return len(ref.external) < CAP
+    if op[0] == 'q2':
+        return len(ref.external) < CAP - 1
     if op[0] == 'qi':
         return len(ref.internal) < CAP
     if op[0] == 'step' and not op[1]:
